@@ -63,7 +63,27 @@ def check_reverse(ctx):
     ctx.check(bool(dflt), R1, fi.key + ":default-width", "n defaults to the operator's own width", "the register width does not default to the operator's width", fi)
     guards = [g for g in cfg.nodes if g.kind == "test" and isinstance(g.ast, ast.If) and branch_raises(cfg, g, "true") and norm(g.ast.test) in (f"{n} < {op}.n_qubits", f"{op}.n_qubits > {n}")]
     loops = [l for l in body_walk(fi.node) if isinstance(l, ast.For) and "terms" in norm(l.iter)]
-    ok = bool(guards) and bool(loops) and all(cfg.dominates(guards[0], cfg.node_of(l)) for l in loops if cfg.node_of(l) is not None)
+    # every path from the entry to the re-indexing loop passes the rejecting guard, or the statement that sets n to the operator's own width
+    # (after which n cannot be narrower); plain dominance of the guard is the special case with no such default path
+    safe = {g.id for g in guards}
+    for x in cfg.nodes:
+        if isinstance(x.ast, ast.Assign) and len(x.ast.targets) == 1 and norm(x.ast.targets[0]) == n and norm(x.ast.value) == f"{op}.n_qubits":
+            safe.add(x.id)
+    later_rebinds = [x for x in cfg.nodes if isinstance(x.ast, (ast.Assign, ast.AugAssign)) and x.id not in safe and any(norm(t) == n for t in (x.ast.targets if isinstance(x.ast, ast.Assign) else [x.ast.target]))]
+
+    def _reaches_unguarded(target):
+        seen, stack = set(), [cfg.entry]
+        while stack:
+            y = stack.pop()
+            if y.id in seen or y.id in safe:
+                continue
+            seen.add(y.id)
+            if y is target:
+                return True
+            stack.extend(z for z, _ in y.succ)
+        return False
+
+    ok = bool(guards) and bool(loops) and not later_rebinds and all(not _reaches_unguarded(cfg.node_of(l)) for l in loops if cfg.node_of(l) is not None)
     ctx.check(ok, R1, fi.key + ":width-guard", "n < operator width is rejected before any term is re-indexed", "a register narrower than the operator is not rejected before re-indexing (indices would go negative)", fi)
     # index map
     maps = []
@@ -74,6 +94,18 @@ def check_reverse(ctx):
                 for s in ast.walk(inner):
                     if isinstance(s, ast.Assign) and isinstance(s.targets[0], ast.Subscript):
                         maps.append((l, inner, q, letter, s))
+    if not maps:
+        # the same map as a dictionary comprehension: {<index>: <letter> for q, letter in term.operations}
+        for l in loops:
+            for st in ast.walk(l):
+                if isinstance(st, ast.Assign) and len(st.targets) == 1 and isinstance(st.targets[0], ast.Name) and isinstance(st.value, ast.DictComp) and len(st.value.generators) == 1:
+                    g = st.value.generators[0]
+                    if "operations" in norm(g.iter) and isinstance(g.target, ast.Tuple) and len(g.target.elts) == 2 and not g.ifs:
+                        q, letter = (norm(x) for x in g.target.elts)
+                        fake = ast.Assign(targets=[ast.Subscript(value=st.targets[0], slice=st.value.key, ctx=ast.Store())], value=st.value.value)
+                        ast.copy_location(fake, st)
+                        ast.fix_missing_locations(fake)
+                        maps.append((l, g, q, letter, fake))
     if len(maps) != 1:
         ctx.undecided(R1, fi.key + ":index-map", f"expected one `new_term[<index>] = <letter>` store in the operations loop, found {len(maps)}", fi)
         return
@@ -95,7 +127,8 @@ def check_reverse(ctx):
     ctx.check(ok, R1, fi.key + ":coefficient", "each re-indexed term keeps its coefficient", "the re-indexed term is not rebuilt from the new index map and the original coefficient", fi)
     acc = [s for s in ast.walk(l) if isinstance(s, ast.AugAssign) and isinstance(s.op, ast.Add)]
     rets = returned_exprs(fi.node)
-    ok = len(acc) == 1 and len(rets) == 1 and norm(rets[0]) == norm(acc[0].target) and not any(isinstance(x, (ast.Continue, ast.Break)) for x in ast.walk(l))
+    # the accumulation is a statement of the loop body itself: not under a condition (CANON turns `if c: continue` into `if not c: ...`)
+    ok = len(acc) == 1 and len(rets) == 1 and norm(rets[0]) == norm(acc[0].target) and not any(isinstance(x, (ast.Continue, ast.Break)) for x in ast.walk(l)) and any(x is acc[0] for x in l.body)
     ctx.check(ok, R1, fi.key + ":all-terms", "every term is re-indexed and summed", "some terms are skipped or the accumulated sum is not what is returned", fi)
 
 
